@@ -119,11 +119,18 @@ impl Date {
     /// `Date` adds days
     #[inline]
     pub fn add_days(self, days: f64) -> Result<Date> {
-        let timestamp = self.0.add_days(days)?;
-        Ok(Date(Timestamp::try_from_usecs(
-            ((timestamp.usecs() as f64) / USECONDS_PER_SECOND as f64).round() as i64
-                * USECONDS_PER_SECOND,
-        )?))
+        let usecs = self.0.add_days(days)?.usecs();
+        // Rounds to the nearest second (ties away from zero) in integer arithmetic:
+        // an f64 cannot hold a microsecond count beyond 2^53 exactly.
+        let second = usecs.div_euclid(USECONDS_PER_SECOND) * USECONDS_PER_SECOND;
+        let fraction = usecs - second;
+        let half = USECONDS_PER_SECOND / 2;
+        let rounded = if fraction > half || (fraction == half && usecs >= 0) {
+            second + USECONDS_PER_SECOND
+        } else {
+            second
+        };
+        Ok(Date(Timestamp::try_from_usecs(rounded)?))
     }
 
     /// `Date` subtracts `Date`
